@@ -126,6 +126,9 @@ impl Prop for C07 {
     fn id(&self) -> &'static str {
         "C07"
     }
+    fn observes_units(&self) -> bool {
+        false
+    }
     fn rule(&self) -> String {
         "every string of the literal grammar sign? (d+ ('.' d*)? | '.' d+) ([eE] sign? d+)? '%'? up to length 7 over digits {0,1,9} and length 4 over all ten digits (quick) / length 7 over {0,1,5,9} and length 5 over all ten digits (thorough), enumerated through the grammar; plus a size ladder: mantissas of 20/40/100/300 digits x 4 digit patterns x 5 point positions x 10 exponents x sign x percent. Each literal is read by str::parse::<Rational> (no percent) and as a whole query and compared with an own digit-string reader. Non-trivial = more than one character; distinct = distinct literal strings".into()
     }
